@@ -119,7 +119,12 @@ func (e *EventEmitter) handleSubscriber(ctx context.Context, sub event.Subscript
 			select {
 			case e = <-sub.Out():
 			case <-ctx.Done():
+				// with the lock: the other goroutine looks at the context and goes to wait
+				// with the lock held, a signal sent in between would be lost and it would
+				// wait forever, the channel never closed
+				condProcess.L.Lock()
 				condProcess.Signal()
+				condProcess.L.Unlock()
 				return
 			}
 
